@@ -35,6 +35,12 @@ PROPERTY_META = {
     'C05': dict(not_covered='completeness (signer/verifier agreement) and soundness of the verification equations: the arithmetic, pairings, hashes and - for cp_rsa_ver - the padding parser are ABSTRACT; what is claimed is the guard / data-flow logic of '
                 'cp_ecdsa_ver, cp_ecss_ver, cp_bls_ver, cp_rsa_ver (three padding configurations), cp_bbs_ver, cp_zss_ver, cp_pss_ver and - without the validity clauses the code lacks (named in the units) - cp_cls_ver, cp_cli_ver, cp_clb_ver, cp_psb_ver; '
                 'the PKCS#1 v1.5 parser pad_pkcs1 over byte-level model stubs up to 72-byte moduli; pad_pkcs2 (PSS), pad_basic, vBNN-IBS, PoK/SoK, ring and homomorphic signatures, every signer, agreement with an independent implementation: not covered'),
+    'C06': dict(not_covered='everything but the last sentence of the property: that decryption inverts encryption, that key agreements agree, that sharing reconstructs and that the set-intersection / delegation protocols are correct is '
+                'modular-exponentiation / pairing / interpolation algebra outside this technique. Of the last sentence ("invalid padding, wrong length or failed authentication are rejected"): cp_rsa_dec in the three padding configurations '
+                '(padding checker, exponentiation and integer codecs ABSTRACT), the PKCS#1 v1.5 decryption parser pad_pkcs1 over byte-level model stubs (bounded, k <= 48 bytes), cp_ecies_dec (KDF, HMAC, comparison and AES-CBC ABSTRACT; '
+                'AES-CBC padding rejection itself: units padDecrypt / bc_aes_cbc_dec of C14). Not covered: OAEP and basic padding parsers in decryption mode, Rabin, Benaloh, Paillier, IBE, BGN and the other schemes; '
+                'observations: cp_ecies_dec does not validate the received point; plaintext written by a failed CBC decryption stays in the output buffer',
+                assumptions=['bn_rsh, bn_mod_2b, bn_is_zero are byte-level model stubs in the pad_pkcs1 unit (corollaries of their value contracts, ASSUMED at the shipped width)']),
     'C07': dict(not_covered='text conversion (bn_read_str/bn_write_str: needs division); value round trips (decode(encode(x)) = x) of field elements and points: the conversion, decompression, membership and curve-equation ARITHMETIC is abstract - '
                 'the decoder/encoder units prove lengths, tags, offsets, which object each validation was asked on, that it was asked after the last write and held, and that encoder and size function agree; '
                 'fp3/fp4/fp8/... and ep3/ep4/ep8 codecs, ep_pck/ep_upk themselves; bn_write_bin is verified at 8-bit digits only (64-bit: time-out), bn_read_bin at both; '
@@ -114,6 +120,8 @@ def all_units():
         units_c07s.register(add)
         import units_c12x
         units_c12x.register(add)
+        import units_c06x
+        units_c06x.register(add)
         # development aid: additional unit modules (comma separated) can be tried out before they are registered here
         import os, importlib
         for m in filter(None, os.environ.get('VERIF_EXTRA_UNITS', '').split(',')):
